@@ -49,7 +49,7 @@ static bool step(Keys &K, const std::string &skey, const std::vector<Reg> &abs, 
     std::string ckey = fmt("lambda=%d/state=%s/op=%s", K.lam, skey.c_str(), op.name.c_str());
     if (op.type == 1) { fresh(K, out, op.val, x); nabs[op.dst] = {op.val, F}; }
     else if (op.type == 2 && abs[op.dst].kind == T) { lweCopy(out, cs.r[op.dst], lp); /* no-op on a trivial register */ }
-    else if (op.type == 2) { lweCopy(out, cs.r[op.dst], lp); Torus32 ph = lwePhase(out, K.sk->lwe_key); int bit = abs[op.dst].bit; Torus32 target = (bit ? MU8 : -MU8) + (op.val ? 1 : -1) * ((1 << 27) - (1 << 12)); out->b += target - ph; nabs[op.dst] = {bit, P}; }
+    else if (op.type == 2) { lweCopy(out, cs.r[op.dst], lp); Torus32 ph = lwePhase(out, K.sk->lwe_key); int bit = abs[op.dst].bit; Torus32 target = (bit ? MU8 : -MU8) + (op.val ? 1 : -1) * ((1 << 27) - (1 << 12)); out->b += target - ph; if (!op.val) out->current_variance = 0.; /* INJECT-: also drops the advisory variance field, as a raw copy of (a, b) would */ nabs[op.dst] = {bit, P}; }
     else { const Gate &g = table()[op.g];
         // the gate is called on the real registers: dst may alias a source (in-place update) — reproduce that on copies of all registers
         std::vector<LweSample *> tmp(cs.r.size()); for (size_t q = 0; q < cs.r.size(); q++) { tmp[q] = new_LweSample(lp); lweCopy(tmp[q], cs.r[q], lp); }
